@@ -17,6 +17,7 @@ import (
 	"sort"
 	"strconv"
 	"strings"
+	"sync"
 	"syscall"
 	"time"
 
@@ -588,7 +589,11 @@ func relayE2ECase(c string) string {
 		return "R fail sink"
 	}
 	defer sink.Close()
-	e := &e2e{transport: f[1], settle: 100 * time.Millisecond, extraArgs: []string{"--statsd.relay.address=" + sink.LocalAddr().String()}}
+	extra := []string{"--statsd.relay.address=" + sink.LocalAddr().String()}
+	if len(f) > 3 {
+		extra = append(extra, "--statsd.relay.packet-length="+f[3])
+	}
+	e := &e2e{transport: f[1], settle: 100 * time.Millisecond, extraArgs: extra}
 	defer e.stop()
 	if err := e.start(15, "none", 0, "", false); err != nil {
 		return "START-FAILED " + strings.ReplaceAll(err.Error()+" "+e.stderr.String(), "\n", "/")
@@ -601,7 +606,7 @@ func relayE2ECase(c string) string {
 		e.tcp.Close() // an unterminated last line is delivered at end of stream
 		e.tcp = nil
 	}
-	var got []string
+	var got, dgrams []string
 	buf := make([]byte, 65536)
 	deadline := time.Now().Add(2500 * time.Millisecond) // the relay flushes once a second
 	for time.Now().Before(deadline) {
@@ -610,6 +615,7 @@ func relayE2ECase(c string) string {
 		if err != nil {
 			continue
 		}
+		dgrams = append(dgrams, hx(string(buf[:n])))
 		for _, l := range strings.Split(strings.TrimSuffix(string(buf[:n]), "\n"), "\n") {
 			got = append(got, hx(l))
 		}
@@ -619,7 +625,84 @@ func relayE2ECase(c string) string {
 	if len(got) > 0 {
 		g = strings.Join(got, ",")
 	}
-	return fmt.Sprintf("R relayed=%s relayed_total=%d lines=%d", g, int(famValue(mfs, "statsd_exporter_relay_lines_relayed_total")), int(famValue(mfs, "statsd_exporter_lines_total")))
+	dg := "-"
+	if len(dgrams) > 0 {
+		dg = strings.Join(dgrams, ",")
+	}
+	return fmt.Sprintf("R relayed=%s relayed_total=%d lines=%d long=%d dgrams=%s", g, int(famValue(mfs, "statsd_exporter_relay_lines_relayed_total")),
+		int(famValue(mfs, "statsd_exporter_lines_total")), int(famValue(mfs, "statsd_exporter_relay_long_lines_total")), dg)
+}
+
+// "RT <n> <gap ms>": relay latency. n lines are sent gap ms apart; each must reach the sink at the relay's next
+// one-second tick, i.e. within a second (the check allows 1.5 s).  Reports the latency of every line in ms (-1 = never).
+func relayLatencyCase(c string) string {
+	f := strings.Fields(c)
+	n, _ := strconv.Atoi(f[1])
+	gap, _ := strconv.Atoi(f[2])
+	sink, err := net.ListenUDP("udp", &net.UDPAddr{IP: net.IPv4(127, 0, 0, 1)})
+	if err != nil {
+		return "RT fail sink"
+	}
+	defer sink.Close()
+	e := &e2e{transport: "udp", settle: 100 * time.Millisecond, extraArgs: []string{"--statsd.relay.address=" + sink.LocalAddr().String()}}
+	defer e.stop()
+	if err := e.start(15, "none", 0, "", false); err != nil {
+		return "START-FAILED " + strings.ReplaceAll(err.Error()+" "+e.stderr.String(), "\n", "/")
+	}
+	sentAt := make([]time.Time, n)
+	arrived := make([]time.Duration, n)
+	for k := range arrived {
+		arrived[k] = -1
+	}
+	var mu sync.Mutex
+	stop := make(chan struct{})
+	done := make(chan struct{})
+	go func() {
+		defer close(done)
+		buf := make([]byte, 65536)
+		for {
+			select {
+			case <-stop:
+				return
+			default:
+			}
+			sink.SetReadDeadline(time.Now().Add(50 * time.Millisecond))
+			m, _, err := sink.ReadFromUDP(buf)
+			if err != nil {
+				continue
+			}
+			now := time.Now()
+			for _, l := range strings.Split(string(buf[:m]), "\n") {
+				var k int
+				if _, err := fmt.Sscanf(l, "zzrt%d:1|c", &k); err == nil && k >= 0 && k < n {
+					mu.Lock()
+					if arrived[k] < 0 {
+						arrived[k] = now.Sub(sentAt[k])
+					}
+					mu.Unlock()
+				}
+			}
+		}
+	}()
+	for k := 0; k < n; k++ {
+		mu.Lock()
+		sentAt[k] = time.Now()
+		mu.Unlock()
+		e.send(fmt.Sprintf("zzrt%d:1|c", k))
+		time.Sleep(time.Duration(gap) * time.Millisecond)
+	}
+	time.Sleep(2500 * time.Millisecond)
+	close(stop)
+	<-done
+	var parts []string
+	for k := 0; k < n; k++ {
+		if arrived[k] < 0 {
+			parts = append(parts, "-1")
+		} else {
+			parts = append(parts, strconv.Itoa(int(arrived[k]/time.Millisecond)))
+		}
+	}
+	return "RT latencies_ms=" + strings.Join(parts, ",")
 }
 
 // "F <stream hex>": the bytes written on one TCP connection, which is then closed.
@@ -686,6 +769,8 @@ func engineE2E(cases string) {
 				res[i] = checkConfig(unhex(strings.Fields(c)[1]))
 			} else if strings.HasPrefix(c, "B ") {
 				res[i] = burstCase(c)
+			} else if strings.HasPrefix(c, "RT ") {
+				res[i] = relayLatencyCase(c)
 			} else if strings.HasPrefix(c, "R ") {
 				res[i] = relayE2ECase(c)
 			} else if strings.HasPrefix(c, "F ") {
